@@ -36,8 +36,17 @@ type runner struct {
 	tagKeyIDs []int
 	// (shard, metricId, tagset) of created series, for the recovery scan
 	seriesSeen map[nameKey][3]int
+	// how each known series was asked for (for asking again), and a counter for brand-new tag sets
+	seriesArgs map[nameKey]seriesArg
+	freshTag   int
+	lim        *models.Limits // the limits of this case's database (re-registered by limits())
 	// big-bucket region: (tag key, first name, count) -> first id
 	ranges map[[3]int]uint32
+}
+
+type seriesArg struct {
+	shard, ns, name, metricID int
+	tags                      []kv
 }
 
 func newRunner(c *core.Ctx, dbName string, nShards, maxSeries int) (*runner, error) {
@@ -50,7 +59,7 @@ func newRunner(c *core.Ctx, dbName string, nShards, maxSeries int) (*runner, err
 	if err != nil {
 		return nil, err
 	}
-	r := &runner{c: c, s: s, o: newOracle(c), tagsets: map[string]int{}, seriesSeen: map[nameKey][3]int{}}
+	r := &runner{c: c, s: s, o: newOracle(c), lim: lim, tagsets: map[string]int{}, seriesSeen: map[nameKey][3]int{}, seriesArgs: map[nameKey]seriesArg{}}
 	c.Op(fmt.Sprintf("reset %d %d", nShards, maxSeries), "ok")
 	return r, nil
 }
@@ -132,8 +141,36 @@ func (r *runner) metric(ns, name int) (uint32, bool) {
 		if id2, ok2 := r.getMetric(ns, name); !ok2 || id2 != id {
 			r.c.Fail(r.o.tag+"lookup-after-create-metric", fmt.Sprintf("%s returned id %d, GetMetricID afterwards: found=%v id=%d", op, id, ok2, id2))
 		}
+	} else {
+		r.c.Branch("gen-metric-" + strings.ReplaceAll(out, " ", "-"))
+		if out == "err too-many-namespaces" || out == "err too-many-metrics" {
+			// a refused name got no id: the lookup-only API must not find one either — unless the name had
+			// an id before (never: createFn only runs for a name that is in no table)
+			k := nameKey{"metric", strconv.Itoa(ns), strconv.Itoa(name)}
+			if prev, had := r.o.live[k]; had {
+				r.c.Fail(r.o.tag+"stable-metric", fmt.Sprintf("%s refused (%s) although the name has id %d", op, out, prev))
+			}
+			if id2, ok2 := r.getMetric(ns, name); ok2 {
+				if _, had := r.o.live[k]; !had {
+					r.c.Fail(r.o.tag+"refused-metric-has-id", fmt.Sprintf("%s was refused (%s), GetMetricID afterwards answers id %d", op, out, id2))
+				}
+			}
+		}
 	}
 	return id, ok
+}
+
+// limits: max-namespaces / max-metrics of the database (0 = off, the default). genNSID / genMetricID — the
+// createFn of the namespace and metric dictionaries — read them on every call.
+func (r *runner) limits(maxNS, maxMetrics int) {
+	r.guard(fmt.Sprintf("limits %d %d", maxNS, maxMetrics), func() string {
+		l := *r.lim
+		l.MaxNamespaces, l.MaxMetrics = uint32(maxNS), uint32(maxMetrics)
+		r.lim = &l
+		models.SetDatabaseLimits(r.s.dbName, r.lim)
+		return "ok"
+	})
+	r.c.Branch("limits")
 }
 
 func (r *runner) getMetric(ns, name int) (uint32, bool) {
@@ -254,6 +291,7 @@ func (r *runner) series(shard, ns, name, metricID int, tags []kv) (uint32, bool)
 		k := nameKey{"series", fmt.Sprintf("%d/%d", shard, metricID), strconv.Itoa(ts)}
 		r.o.observe(k, id, op)
 		r.seriesSeen[k] = [3]int{shard, metricID, ts}
+		r.seriesArgs[k] = seriesArg{shard, ns, name, metricID, tags}
 		r.c.Branch("gen-series")
 		r.c.NonTrivial()
 	} else {
@@ -329,6 +367,57 @@ func (r *runner) icompact(shard int) {
 func (r *runner) iflushfail(shard int) {
 	out := r.guard(fmt.Sprintf("iflushfail %d", shard), func() string { return okOut(r.s.indexFlushFail(shard)) })
 	r.c.Branch("index-flush-" + strings.ReplaceAll(out, " ", "-"))
+}
+
+// iflushfault: the real index Flush of one shard with a fault placed on one of its four steps.
+func (r *runner) iflushfault(shard, step int) {
+	out := r.guard(fmt.Sprintf("iflushfault %d %d", shard, step), func() string { return okOut(r.s.indexFlushFault(shard, step)) })
+	r.c.Branch(fmt.Sprintf("index-flush-fault-%d-%s", step, strings.ReplaceAll(out, " ", "-")))
+}
+
+// seriesAudit: for every (shard, metric) that has known series: one series with a brand-new tag set is
+// created, then every known tag set is asked for again. Whatever happened before (failed flush steps, crashes,
+// reopen): the new series must not get an id that the dictionary — recovered or not — answers for an old one
+// (injective-series), and within one run of the node an old one keeps its id (stable-series).
+func (r *runner) seriesAudit() {
+	type sm struct{ shard, metricID int }
+	groups := map[sm][]nameKey{}
+	var order []sm
+	for _, k := range sortedSeriesKeys(r.seriesArgs) {
+		a := r.seriesArgs[k]
+		g := sm{a.shard, a.metricID}
+		if _, ok := groups[g]; !ok {
+			order = append(order, g)
+		}
+		groups[g] = append(groups[g], k)
+	}
+	for _, g := range order {
+		if r.err != nil {
+			return
+		}
+		a := r.seriesArgs[groups[g][0]]
+		r.freshTag++
+		r.series(g.shard, a.ns, a.name, g.metricID, []kv{{9, 1000 + r.freshTag}})
+		for _, k := range groups[g] {
+			b := r.seriesArgs[k]
+			r.series(b.shard, b.ns, b.name, b.metricID, b.tags)
+		}
+	}
+	r.c.Branch("series-audit")
+}
+
+func sortedSeriesKeys(m map[nameKey]seriesArg) []nameKey {
+	ks := make([]nameKey, 0, len(m))
+	for k := range m {
+		ks = append(ks, k)
+	}
+	sort.Slice(ks, func(i, j int) bool {
+		if ks[i].scope != ks[j].scope {
+			return ks[i].scope < ks[j].scope
+		}
+		return ks[i].name < ks[j].name
+	})
+	return ks
 }
 
 func (r *runner) iprepare(shard int) {
@@ -577,6 +666,10 @@ func (area) Run(c *core.Ctx) error {
 				err = bufReuseRegion(c, rng, db, true)
 			case 21:
 				err = bufReuseRegion(c, rng, db, false)
+			case 22, 23, 24, 25:
+				err = witnessIndexFlushFault(c, db, i-22)
+			case 26:
+				err = witnessNameLimits(c, db)
 			default:
 				if rng.Intn(12) == 0 {
 					err = bufReuseRegion(c, rng, db, false)
@@ -634,6 +727,12 @@ func randomCase(c *core.Ctx, rng *rand.Rand, db string) error {
 	const nNS, nMetric, nKeys, nVals, nFields = 3, 5, 5, 6, 5
 	// flushes become more likely in "flushy" cases so that several generations of files exist
 	flushy := 1 + rng.Intn(3)
+	// region: namespace / metric-name limits on (createFn of the two dictionaries refuses new names)
+	limited := rng.Intn(8) == 0
+	if limited {
+		r.limits(1+rng.Intn(2), 1+rng.Intn(4))
+		c.Branch("region-name-limits")
+	}
 	for st := 0; st < steps && r.err == nil; st++ {
 		k := rng.Intn(100)
 		switch {
@@ -701,12 +800,35 @@ func randomCase(c *core.Ctx, rng *rand.Rand, db string) error {
 					r.metric(rng.Intn(nNS), rng.Intn(nMetric))
 				}
 				r.mflushfail()
-			} else {
+			} else if rng.Intn(3) == 0 {
 				sh := rng.Intn(nShards)
 				if rng.Intn(3) != 0 {
 					r.iprepare(sh)
 				}
 				r.iflushfail(sh)
+			} else {
+				// fault placement per flush STEP x crash / reopen / retry x new series afterwards
+				sh := rng.Intn(nShards)
+				if rng.Intn(4) != 0 {
+					r.iprepare(sh)
+				}
+				r.iflushfault(sh, rng.Intn(4))
+				switch rng.Intn(5) {
+				case 0:
+					r.crash()
+				case 1:
+					r.reopen()
+				case 2: // the retry round (what the next FlushEvent does), then the crash
+					r.iprepare(sh)
+					r.iflush(sh)
+					r.crash()
+				case 3: // a second fault somewhere else before the retry
+					r.iprepare(sh)
+					r.iflushfault(sh, rng.Intn(4))
+				}
+				if r.err == nil && rng.Intn(2) == 0 {
+					r.seriesAudit()
+				}
 			}
 		case k < 92:
 			r.reopen()
@@ -744,9 +866,13 @@ func randomCase(c *core.Ctx, rng *rand.Rand, db string) error {
 			c.Branch("region-field-limit")
 		}
 	}
-	// end of case: everything is looked up once more on a reopened node
+	// end of case: everything is looked up once more on a reopened node, and every metric gets one more
+	// series before all its known tag sets are asked for again
 	if r.err == nil {
 		r.reopen()
+	}
+	if r.err == nil {
+		r.seriesAudit()
 	}
 	return r.err
 }
